@@ -22,6 +22,7 @@ int            M_ntok;
 int            M_depth;           /* callback nesting */
 int            M_reenter_cancel;  /* allow callbacks to call ares_cancel() (depth 1) */
 int            M_reentered;
+int            M_evwake;          /* ares_event_thread_wake_channel() calls (the event thread is asked to recompute its sleep) */
 size_t         M_writes;          /* successful frame hand-overs to a connection buffer */
 ares_conn_t   *M_last_write_conn;
 int            M_cookie_validate_rv; /* 0 = accept */
@@ -59,6 +60,13 @@ ares_status_t ares_cookie_validate(ares_query_t *q, const ares_dns_record_t *r, 
 {
   (void)q; (void)r; (void)c; (void)n; (void)rq;
   return M_cookie_validate_rv ? ARES_EBADRESP : ARES_SUCCESS;
+}
+/* event/ares_event_thread.c is not part of the machine: its wake entry point is a recorder (the real one signals the
+ * thread's wake pipe iff the event thread monitors this channel) */
+void ares_event_thread_wake_channel(const ares_channel_t *channel)
+{
+  (void)channel;
+  M_evwake++;
 }
 #ifndef M_NO_QCACHE_INSERT
 ares_status_t ares_qcache_insert(ares_channel_t *ch, const ares_timeval_t *now, const ares_query_t *q, ares_dns_record_t *r)
